@@ -26,7 +26,10 @@ RULE = ('Hypothesis programs = typed statements (every operator/statement/builti
         'then with every budget N in 1..K+2 when K <= 60 (else a boundary set plus drawn values). Sessions: lambdas '
         'defined by earlier evals are invoked by later evals under every budget, and repeated 30 times. Non-trivial: '
         'K >= 5 and a lambda body evaluated through a higher-order builtin or host callback, or a session whose later '
-        'eval invokes an earlier eval\'s lambda; distinct by program text + environment.')
+        'eval invokes an earlier eval\'s lambda; distinct by program text + environment. Deep job: runaway recursion '
+        '(direct, mutual, through map/reduce/host callback, defined by an earlier eval) and nestings 5..2500 deep under '
+        'budgets 60..10^9: an ops-limit error may only be raised by the N-th started operation; non-trivial there = the '
+        'interpreter stack was exhausted or the limit hit with N >= 500.')
 ASSUMPTIONS = ['prefix/snapshot relations are not asserted when a swallowing host (safe) is on the call path; the bound '
                '"at most N-1 operations take effect" is asserted always']
 
@@ -288,7 +291,72 @@ def check_session(setup, targets, env, fracs, case):
     return fails, info
 
 
+# ------------------------------------------------------------------------------- deep / runaway programs
+DEEP_RUNAWAY = [
+    'f = n => f(n + 1)\nf(0)',
+    'f = n => [n] | map(k => f(k + 1))\nf(0)',
+    'f = n => call(f, n + 1)\nf(0)',
+    'f = n => t(n) + f(n + 1)\nf(0)',
+    'f = n => reduce([n, 1], (a, b) => f(a + b))\nf(0)',
+    'f = n => g(n + 1)\ng = n => f(n + 1)\nf(0)',
+    'xs | map(v => fdeep(v))',
+]
+DEEP_NEST = [('-(', '1', ')'), ('[', 't(1)', ']'), ('abs(', '1', ')'), ('(not ', 'x0', ')'), ('{"k": ', '1', '}'),
+             ('call(v => v, ', '1', ')'), ('(1 if ', '1', ' else 0)'), ('[0, ', '1', '][1]'), ('1 + (', '1', ')')]
+
+
+def deep_source(case):
+    if case['shape'] == 'runaway':
+        return DEEP_RUNAWAY[case['i'] % len(DEEP_RUNAWAY)]
+    o, m, c = DEEP_NEST[case['i'] % len(DEEP_NEST)]
+    return o * case['d'] + m + c * case['d']
+
+
+def check_deep(case):
+    """large budgets with programs that exhaust the interpreter's stack: whatever else happens, the ops-limit error
+    may only be raised by the N-th operation, and never more than N-1 operations may be charged and go on"""
+    from smartquery.exceptions import OpsExecutionLimitExceededError as OLE
+    src = deep_source(case)
+    fails = []
+    info = {'K': 0, 'deep': False}
+    for N in case['budgets']:
+        log = []
+        names = {'x0': True, 'xs': [1, 2]}
+        names.update(make_hosts(log))
+        if case.get('session'):
+            try:
+                parser().eval('fdeep = n => fdeep(n + 1)', names, max_ops_evaluated=50)
+            except Exception:  # noqa
+                return fails, {'discard': True}
+        mon = Monitor()
+        kind = 'value'
+        with mon.on():
+            try:
+                parser().eval(src, names, max_ops_evaluated=N)
+            except OLE:
+                kind = 'ops'
+            except RecursionError:
+                kind = 'recursion'
+            except Exception as e:  # noqa
+                kind = 'other:' + type(e).__name__
+        info['K'] = max(info['K'], mon.total_entries)
+        if kind == 'recursion' or (kind == 'ops' and N >= 500):
+            info['deep'] = True
+        if mon.charges_ok > N - 1:
+            fails.append(Failure('deep:more-than-N-1-operations-took-effect',
+                                 f'{src[:80]!r}.. budget {N}: {mon.charges_ok} operations were charged and went on', case))
+            break
+        if kind == 'ops' and (mon.total_entries != N or mon.charges_ok != N - 1):
+            fails.append(Failure('deep:ops-limit-error-before-the-Nth-operation',
+                                 f'{src[:80]!r}.. (len {len(src)}) budget {N}: ops-limit error raised although only '
+                                 f'{mon.total_entries} operations had started ({mon.charges_ok} charged and went on)', case))
+            break
+    return fails, info
+
+
 def run_case(case):
+    if case['kind'] == 'deep':
+        return check_deep(case)[0]
     env = core.dec(case['env'])
     if case['kind'] == 'single':
         return check_single(case['src'], env, case.get('ast'), case.get('fracs', []), case, case.get('swallow', False))[0]
@@ -395,17 +463,41 @@ def cases(draw):
     return {'kind': 'single', 'src': src, 'env': core.enc(env), 'ast': ast, 'fracs': fracs, 'swallow': swallow}
 
 
+@hst.composite
+def deep_cases(draw):
+    n = lambda k: draw(hst.integers(0, k - 1))  # noqa
+    shape = 'runaway' if n(2) == 0 else 'nest'
+    i = n(63)
+    d = [5, 40, 150, 400, 900, 2500][n(6)] + n(30)
+    budgets = sorted({[60, 300, 1000, 5000][n(4)] + n(50), [10 ** 4, 10 ** 5, 10 ** 6][n(3)] + n(1000), BIG - n(3), 3 * d + n(5), d + n(5)})
+    session = shape == 'runaway' and DEEP_RUNAWAY[i % len(DEEP_RUNAWAY)].find('fdeep') >= 0
+    return {'kind': 'deep', 'shape': shape, 'i': i, 'd': d, 'budgets': budgets, 'session': session}
+
+
 HOF_MARKS = ('ctxcall(', 'threadcall(', 'map(', 'filter(', 'reduce(', 'sorted(', 'call(', 'safe(', 'fr(', 'fib(', 'h(')
 
 
 def jobs(tier, seed):
     per = 220 if tier == 'quick' else 6000
-    return [(core.derive_seed(seed, 'c01', i), per) for i in range(16)]
+    deep = 25 if tier == 'quick' else 600
+    return [(core.derive_seed(seed, 'c01', i), per) for i in range(16)] + \
+           [('deep', core.derive_seed(seed, 'c01deep', i), deep) for i in range(4)]
 
 
 def run_job(job):
-    seed, n = job
     st = Stats()
+    if job[0] == 'deep':
+        def dcheck(case):
+            fails, info = check_deep(case)
+            if info.get('discard'):
+                return hyp.Result(discard=True)
+            st.maxi('K', info['K'])
+            return hyp.Result(fails, info['deep'], ['deep:' + case['shape'], 'deep:stack-exhausted' if info['deep'] else 'deep:shallow'],
+                              key=repr((case['shape'], case['i'] % 9, case['d'], case['budgets'])),
+                              sample={'src': deep_source(case)[:120], 'budgets': case['budgets'], 'operations_started': info['K']})
+        hyp.drive(deep_cases(), dcheck, st, seed=job[1], max_examples=job[2])
+        return st
+    seed, n = job
 
     def check(case):
         env = core.dec(case['env'])
